@@ -74,7 +74,11 @@ def job(cfg):
     CFG.simplex_shortcut = False
     try:
         def fn():
-            m, params, x, ctx, asm = case.build_symbolic(n=nrows, seed=False)
+            prelude, case.prelude = case.prelude, None  # a call history runs below, after the seeds are attached
+            try:
+                m, params, x, ctx, asm = case.build_symbolic(n=nrows, seed=False)
+            finally:
+                case.prelude = prelude
             if training:
                 torch.nn.Module.train(m, True)
             names = seed_everything(m, x, ctx)
@@ -82,6 +86,10 @@ def job(cfg):
             for a in asm:
                 explore.assume(a)
             with stubs.torch_patches():
+                if prelude:
+                    # e.g. an inverse pass that fills the weight cache: what it leaves behind must still carry the
+                    # derivatives with respect to the parameters
+                    prelude(m, x, ctx)
                 f = m if direction == "forward" else m.inverse
                 return f(x, ctx) if ctx is not None else f(x)
 
@@ -296,6 +304,8 @@ def replay(case_name, training, seed=0, direction="forward", n=1):
             for mod_ in m.modules():  # a weight cache filled by an earlier evaluation must not survive a parameter change
                 if hasattr(mod_, "cache") and hasattr(mod_.cache, "invalidate"):
                     mod_.cache.invalidate()
+            if case.prelude:
+                case.prelude(m, x.detach(), ctx)  # the recorded history (e.g. inverse first), as a user would run it
             y, lad = call(x, ctx) if ctx is not None else call(x)
             return (y * wts).sum() + lad.sum()
 
@@ -344,6 +354,9 @@ def configs(tier):
         if "PiecewiseCubic" in c.name and tier == "quick":
             continue
         cfgs.append({"case": c.name, "training": False, "timeout": t, "nval": 3})
+    for c in CS.cases_for(tier, with_history=True):
+        if c.prelude:
+            cfgs.append({"case": c.name, "training": False, "timeout": t, "nval": 0})
     cfgs.append({"case": "BatchNorm/eval", "training": True, "n": 2, "timeout": t, "nval": 0})
     cfgs.append({"case": "MaskedAffineAutoregressive/D=2", "training": False, "direction": "inverse", "timeout": t, "nval": 0})
     cfgs.append({"case": "AffineCoupling/D=2", "training": False, "direction": "inverse", "timeout": t, "nval": 0})
